@@ -1,0 +1,60 @@
+// Verification hooks: read-only views of private state, compiled only with feature `verif`.
+// Nothing in the library reads these values back; they exist so an external harness can
+// record which internal branch / memo slot a public call exercised.
+
+use std::cell::Cell;
+
+/// Which branch of `lonlat_to_cell` produced the last answer on this thread
+#[derive(Debug, Clone, Copy, PartialEq, Default)]
+pub struct LookupInfo {
+    /// 0 = none yet, 1 = low resolution / world (exact), 2 = estimate from the query point itself,
+    /// 3 = estimate from a probe sample, 4 = nearest-edge fallback
+    pub branch: u8,
+    /// Index of the sample whose estimate won (0 = query point, 1..=25 probes), or 255
+    pub sample: u8,
+    /// Number of distinct estimates examined
+    pub estimates: u8,
+    /// Containment value of the returned cell (1.0 = inside, negative = distance outside)
+    pub best: f64,
+}
+
+thread_local! {
+    static LAST_LOOKUP: Cell<LookupInfo> = const { Cell::new(LookupInfo { branch: 0, sample: 255, estimates: 0, best: 0.0 }) };
+}
+
+pub fn set_lookup_info(info: LookupInfo) {
+    LAST_LOOKUP.with(|c| c.set(info));
+}
+
+/// Branch record of the most recent `lonlat_to_cell` on the calling thread
+pub fn lookup_info() -> LookupInfo {
+    LAST_LOOKUP.with(|c| c.get())
+}
+
+/// View of the calling thread's projection memo cache
+#[derive(Debug, Clone, PartialEq)]
+pub struct CacheView {
+    /// Address of the thread's `DodecahedronProjection` instance
+    pub instance: usize,
+    /// Filled flags of the 30 face-triangle slots
+    pub face_slots: Vec<bool>,
+    /// Filled flags of the 240 spherical-triangle slots
+    pub spherical_slots: Vec<bool>,
+}
+
+/// Read-only view of which memo slots are filled in the calling thread
+pub fn cache_view() -> CacheView {
+    crate::projections::dodecahedron::DodecahedronProjection::get_thread_local().verif_cache_view()
+}
+
+/// Vertices (unit vectors) of the filled spherical-triangle slots of the calling thread
+pub fn cache_spherical_triangles() -> Vec<(usize, [[f64; 3]; 3])> {
+    crate::projections::dodecahedron::DodecahedronProjection::get_thread_local()
+        .verif_spherical_triangles()
+}
+
+/// Vertices of the filled face-triangle slots of the calling thread
+pub fn cache_face_triangles() -> Vec<(usize, [[f64; 2]; 3])> {
+    crate::projections::dodecahedron::DodecahedronProjection::get_thread_local()
+        .verif_face_triangles()
+}
